@@ -4,7 +4,8 @@ from .. import ndevhist, core, machist, macstage
 
 ID = "C05"
 THEOREMS = ["C05_first_downlink", "C05_counter_rule", "C05_never_backwards", "C05_no_replay",
-            "C05_rejects_everything_else", "C05_accept_effects", "C05_nb_downlinks_strictly_increase", "C05_async_downlinks_strictly_increase", "C05_inc_from_example"]
+            "C05_rejects_everything_else", "C05_accept_effects", "C05_nb_downlinks_strictly_increase", "C05_async_downlinks_strictly_increase", "C05_inc_from_example",
+            "C05_max_payload_tables_match_rp002"]
 KINDS = ["downlink", "acted upon", "oversized frame was accepted"]
 
 
@@ -105,8 +106,25 @@ def gen(rng, tier):
     return lines
 
 
+# RP002 maximum MACPayload size M per (SF, bandwidth index) -- no repeater, no dwell-time limit -- written from the specification
+_EU = {(12, 7): 59, (11, 7): 59, (10, 7): 59, (9, 7): 123, (8, 7): 250, (7, 7): 250, (7, 8): 250}
+_AS = {(12, 7): 59, (11, 7): 59, (10, 7): 123, (9, 7): 123, (8, 7): 250, (7, 7): 250, (7, 8): 250}
+_W5 = {(12, 9): 61, (11, 9): 137, (10, 9): 250, (9, 9): 250, (8, 9): 250, (7, 9): 250}
+RP_M = {0: _AS, 1: _AS, 2: _AS, 3: _AS, 5: _EU, 6: _EU, 7: _EU,
+        4: {**_W5, (12, 7): 59, (11, 7): 59, (10, 7): 59, (9, 7): 123, (8, 7): 250, (7, 7): 250},
+        8: {**_W5, (10, 7): 19, (9, 7): 61, (8, 7): 133, (7, 7): 250}}
+RXREQ = re.compile(r"rx_request\[(\d+)/(\d+)/(\d+)/(\d+)\]")
+
+
 def front_judge(case, impl, model=None):
-    """reported downlink counters strictly increase until a join starts a new session"""
+    """reported downlink counters strictly increase until a join starts a new session; the size limit a receive window applies is the
+    RP002 maximum of its data rate"""
+    region = int(re.search(r"r=(\d+)", case).group(1))
+    for f, sf, bw, mx in RXREQ.findall(impl):
+        want = RP_M[region].get((int(sf), int(bw)))
+        if want is not None and int(mx) != want:
+            return {"kind": "a receive window applies a maximum frame size other than RP002's for its data rate (frames beyond the regional maximum "
+                            "would be acted on / legal ones dropped)", "region": region, "sf_bw": [int(sf), int(bw)], "applied": int(mx), "rp002": want}
     last = None
     ops = [p.strip() for p in case.split("|")][1:]
     for op, out in zip(ops, impl.split(" ; ")):
@@ -143,7 +161,20 @@ def run(rep, tier, rng):
     # the nb_device front-end (C05_nb_downlinks_strictly_increase speaks of the code through this correspondence): histories with valid,
     # replayed, foreign, oversized and junk frames in the windows; the reported downlink counters must be strictly increasing per session
     fe = ndevhist.histories(rng.fork("ndev"), tier)
+    # every (region, uplink data rate): the RX1 / RX2 windows the front-end requests, with the size limit they apply
+    for region in range(9):
+        for dr in machist.UPLINK_DR[region]:
+            fe.append("ndev r=%d fault=- bias=- session=%s:%s:7:0 | dr %d | send 01 1 0 %s txdone | timeout | timeout | timeout | timeout" % (
+                region, "02" * 16, "01" * 16, dr, machist.draws(rng, 40)))
     core.diff_stage(rep, "X:C05:nb-front-end", fe, front_judge)
+    bad = 0
+    for c, o in zip(*rep.last_run):
+        v = front_judge(c, o)
+        if v:
+            bad += 1
+            if bad <= 3:
+                v.update({"case": c, "impl_output": o[:2000]})
+                rep.violation(v, concrete=True)
     rep.cov["rule"] = ("counter arithmetic: all 2^16 wire values for `last` on a stride through +-70000 of 0, 2^16, k*2^16, 2^31.., 2^32-1 (digest sweeps); "
                        "device histories: accepted counters walking across 0xFFFF/0x10000 and up to 2^32-1 (sessions patched through serde), "
                        "authentic frames of PHY length M+3..M+7 for 14 data-rate maxima M in Class A and C windows; replays, reordered, far-future (gap 16385+), wrong-epoch MIC, forged frames, Class A and Class C receive paths; "
